@@ -183,4 +183,78 @@ theorem reach_og {A : Algo} {sh0 : A.Sh} {progs : List (List Op)}
             · rw [gne j e2] at hj
               exact ihK i j ti tj hij hi hj
 
+/-- the same with an initial `K` that may depend on which programs the two threads run (ownership of
+message ids).  Owicki–Gries style invariants: `P` on the shared state, `J i` on thread `i` relative to the shared
+state (its program counter, locals and remaining program), `K` between two different threads.
+Obligations: initial; the stepping thread re-establishes `P` and its own `J`; the other threads'
+`J` is not interfered with; `K` is kept.  Conclusion: all three hold in every reachable
+configuration — all programs, any number of threads, all schedules. -/
+theorem reach_og2 {A : Algo} {sh0 : A.Sh} {progs : List (List Op)}
+    (P : A.Sh → Prop) (J : Nat → A.Sh → Thread A.PC → Prop) (K : Thread A.PC → Thread A.PC → Prop)
+    (h0 : P sh0)
+    (hj0 : ∀ (i : Nat) (p : List Op) (k : Nat), progs[i]? = some p → J i sh0 (mkThread A p k))
+    (hk0 : ∀ (i j : Nat) (p q : List Op) (k k' : Nat), i ≠ j → progs[i]? = some p → progs[j]? = some q →
+        K (mkThread A p k) (mkThread A q k'))
+    (hstep : ∀ (s : A.Sh) (i : Nat) (t : Thread A.PC) (pc : A.PC) (now : Nat), P s → J i s t → t.pc = some pc →
+        P (A.exec s pc).1 ∧ J i (A.exec s pc).1 (t.advance A now (A.exec s pc).2))
+    (hframe : ∀ (s : A.Sh) (i j : Nat) (ti tj : Thread A.PC) (pc : A.PC), i ≠ j → P s → J i s ti → J j s tj →
+        K ti tj → ti.pc = some pc → J j (A.exec s pc).1 tj)
+    (hK : ∀ (s : A.Sh) (i j : Nat) (ti tj : Thread A.PC) (pc : A.PC) (now : Nat), i ≠ j → P s → J i s ti → J j s tj →
+        K ti tj → ti.pc = some pc →
+        K (ti.advance A now (A.exec s pc).2) tj ∧ K tj (ti.advance A now (A.exec s pc).2)) :
+    ∀ c, Reach A (initCfg A sh0 progs) c →
+      P c.sh ∧ (∀ (i : Nat) (t : Thread A.PC), c.threads[i]? = some t → J i c.sh t) ∧
+      (∀ (i j : Nat) (ti tj : Thread A.PC), i ≠ j → c.threads[i]? = some ti → c.threads[j]? = some tj → K ti tj) := by
+  intro c hr
+  induction hr with
+  | init =>
+    refine ⟨h0, ?_, ?_⟩
+    · intro i t hi
+      obtain ⟨p, k, hp, e⟩ := spawn_get' A progs 0 i t hi
+      subst e; exact hj0 i p k hp
+    · intro i j ti tj hij hi hj
+      obtain ⟨p, k, hp, e⟩ := spawn_get' A progs 0 i ti hi
+      obtain ⟨q, k', hq, e'⟩ := spawn_get' A progs 0 j tj hj
+      subst e; subst e'; exact hk0 i j p q k k' hij hp hq
+  | @step c tid _ ih =>
+    obtain ⟨ihP, ihJ, ihK⟩ := ih
+    unfold stepCfg
+    split
+    · exact ⟨ihP, ihJ, ihK⟩
+    · next t ht =>
+      split
+      · exact ⟨ihP, ihJ, ihK⟩
+      · next pc hpc =>
+        have hlen : tid < c.threads.length := by
+          rcases Nat.lt_or_ge tid c.threads.length with h' | h'
+          · exact h'
+          · rw [List.getElem?_eq_none h'] at ht; cases ht
+        have hs := hstep c.sh tid t pc c.clock ihP (ihJ tid t ht) hpc
+        have gself : (c.threads.set tid (t.advance A c.clock (A.exec c.sh pc).2))[tid]? = some (t.advance A c.clock (A.exec c.sh pc).2) := by
+          simp [hlen]
+        have gne : ∀ i, i ≠ tid → (c.threads.set tid (t.advance A c.clock (A.exec c.sh pc).2))[i]? = c.threads[i]? := by
+          intro i hi; simp [List.getElem?_set, Ne.symm hi]
+        refine ⟨hs.1, ?_, ?_⟩
+        · intro i ti hi
+          change (c.threads.set tid (t.advance A c.clock (A.exec c.sh pc).2))[i]? = some ti at hi
+          by_cases e : i = tid
+          · subst e; rw [gself] at hi; injection hi with hi; subst hi; exact hs.2
+          · rw [gne i e] at hi
+            exact hframe c.sh tid i t ti pc (Ne.symm e) ihP (ihJ tid t ht) (ihJ i ti hi) (ihK tid i t ti (Ne.symm e) ht hi) hpc
+        · intro i j ti tj hij hi hj
+          change (c.threads.set tid (t.advance A c.clock (A.exec c.sh pc).2))[i]? = some ti at hi
+          change (c.threads.set tid (t.advance A c.clock (A.exec c.sh pc).2))[j]? = some tj at hj
+          by_cases e1 : i = tid
+          · subst e1
+            rw [gself] at hi; injection hi with hi; subst hi
+            rw [gne j (Ne.symm hij)] at hj
+            exact (hK c.sh i j t tj pc c.clock hij ihP (ihJ i t ht) (ihJ j tj hj) (ihK i j t tj hij ht hj) hpc).1
+          · rw [gne i e1] at hi
+            by_cases e2 : j = tid
+            · subst e2
+              rw [gself] at hj; injection hj with hj; subst hj
+              exact (hK c.sh j i t ti pc c.clock (Ne.symm hij) ihP (ihJ j t ht) (ihJ i ti hi) (ihK j i t ti (Ne.symm hij) ht hi) hpc).2
+            · rw [gne j e2] at hj
+              exact ihK i j ti tj hij hi hj
+
 end GoaktVerif.C04
